@@ -104,6 +104,7 @@ CRASH_PATTERNS = [
     (re.compile(r"Assertion `(.*?)' failed"), "assert:%s"),
     (re.compile(r"terminate called after throwing an instance of '(.*?)'"), "terminate:%s"),
     (re.compile(r"WARNING: ThreadSanitizer: ([\w -]+?) \("), "tsan:%s"),
+    (re.compile(r"== (Conditional jump or move depends on uninitialised value|Use of uninitialised value|Invalid (?:read|write) of size \d+|Syscall param .*? uninitialised)"), "memcheck:%s"),
 ]
 
 
@@ -120,7 +121,7 @@ class Stage:
     """One driver run over a range of case indices in one build variant."""
 
     def __init__(self, name, driver, variant="plain", cases=None, args=None, env=None, wrapper=None,
-                 timeout_per_case=60.0, chunk=None, offset=0):
+                 timeout_per_case=60.0, chunk=None, offset=0, extra_targets=None, report_exit_codes=None):
         self.name = name
         self.driver = driver
         self.variant = variant
@@ -131,6 +132,9 @@ class Stage:
         self.timeout_per_case = timeout_per_case
         self.chunk = chunk
         self.offset = offset
+        self.extra_targets = extra_targets or []
+        # exit codes by which a wrapper (valgrind --error-exitcode) reports findings although every case completed
+        self.report_exit_codes = report_exit_codes or []
 
 
 def run_chunk(exe, stage, seed, tier, start, count, outdir, results):
@@ -180,6 +184,11 @@ def run_chunk(exe, stage, seed, tier, start, count, outdir, results):
         if rc == 0 and not timed_out:
             break
         crashed_case = last_begin if last_begin is not None and last_begin not in done else None
+        if crashed_case is None and rc in stage.report_exit_codes and last_begin is not None:
+            # the wrapper reported errors at exit: attribute them to the (single) case of this process
+            results["crashes"].append({"stage": stage.name, "case": last_begin, "rc": rc,
+                                       "kind": classify_crash(rc, err), "pre": last_pre, "stderr": err[-3000:]})
+            break
         if crashed_case is None:
             # the process failed outside a case: harness failure
             results["harness_errors"].append({"stage": stage.name, "start": i, "rc": rc, "stderr": err[-2000:]})
@@ -238,15 +247,16 @@ def run_single(exe, stage, seed, tier, case, outdir, results):
                 got = True
     if timed_out:
         results["timeouts"].append({"stage": stage.name, "case": case})
-    elif rc != 0 and not got:
+    elif rc != 0 and (not got or rc in stage.report_exit_codes):
         results["crashes"].append({"stage": stage.name, "case": case, "rc": rc, "kind": classify_crash(rc, err),
                                    "pre": pre, "stderr": err[-3000:]})
     return rc, err
 
 
 def run_stage(stage, seed, tier, outdir, only_case=None):
-    bdir = build(stage.variant, [stage.driver])
+    bdir = build(stage.variant, [stage.driver] + list(stage.extra_targets))
     exe = os.path.join(bdir, stage.driver)
+    stage.args = {k: (v.replace("{bdir}", bdir) if isinstance(v, str) else v) for k, v in stage.args.items()}
     results = {"obs": [], "crashes": [], "harness_errors": [], "timeouts": []}
     os.makedirs(outdir, exist_ok=True)
     if only_case is not None:
